@@ -224,7 +224,7 @@ class NDOptionBase (packet_base):
 
   def pack (self):
     d = self._pack_body()
-    while (len(d)+2) % 8: d += "\x00" # sloppy
+    while (len(d)+2) % 8: d += b"\x00" # sloppy
     return struct.pack("BB", self.TYPE, (len(d)+2)//8) + d
 
   @classmethod
@@ -368,7 +368,7 @@ class NDOptPrefixInformation (NDOptionBase):
   def pack (self):
     s = struct.pack("!BBII", self.prefix_length, self.flags,
         self.valid_lifetime,self.preferred_lifetime)
-    s += '\x00' * 4
+    s += b'\x00' * 4
     s += self.prefix.raw
     return s
 
